@@ -1,4 +1,5 @@
 CONSTANTS
+  BDom <- BLat
   LB = 3
   VB = 10
   PB = 11
